@@ -8,6 +8,9 @@ package checks
 
 import (
 	"fmt"
+	"github.com/CloudyKit/jet/v6"
+	"io"
+	"reflect"
 	"strings"
 	"testing"
 
@@ -25,6 +28,35 @@ type c03Seg struct {
 	PadL   string `json:"pl,omitempty"` // whitespace inside the action, left of the expression
 	PadR   string `json:"pr,omitempty"`
 	Number bool   `json:"n,omitempty"` // marker printed as a number literal instead of a string literal
+	// Shout: the action is a call of shout(), a Go function that wraps Runtime.Writer (an exported field, as exec()
+	// itself uses it) in a writer that turns a-z into A-Z: from here on everything the template emits, text included
+	Shout bool `json:"shout,omitempty"`
+}
+
+type c03Upper struct{ w io.Writer }
+
+func c03UpperASCII(b []byte) []byte {
+	out := append([]byte(nil), b...)
+	for i, ch := range out {
+		if ch >= 'a' && ch <= 'z' {
+			out[i] = ch - 'a' + 'A'
+		}
+	}
+	return out
+}
+
+func (u c03Upper) Write(b []byte) (int, error) {
+	_, err := u.w.Write(c03UpperASCII(b))
+	return len(b), err
+}
+
+func c03Vars() jet.VarMap {
+	vars := jet.VarMap{}
+	vars.SetFunc("shout", func(a jet.Arguments) reflect.Value {
+		a.Runtime().Writer = c03Upper{a.Runtime().Writer}
+		return reflect.Value{}
+	})
+	return vars
 }
 
 type c03Case struct {
@@ -67,6 +99,8 @@ var c03DelimPool = []jetrun.Delims{
 	{CLeft: "{", CRight: "}"},
 	{Left: "<%", Right: "%>", CLeft: "<", CRight: ">"},
 	{Left: "[[[", Right: "]]]", CLeft: "[[", CRight: "]]"},
+	// only one of the two comment markers configured: the other one keeps its default
+	{CLeft: "<#"}, {CRight: "#}"}, {Left: "[[", Right: "]]", CRight: "#]"}, {Left: "<%", Right: "%>", CLeft: "<!--"},
 }
 
 func genDelims(t *rapid.T) jetrun.Delims {
@@ -186,6 +220,9 @@ func genC03(t *rapid.T) c03Case {
 			if rapid.IntRange(0, 3).Draw(t, "num") == 0 {
 				s.Number = true
 				s.Text = fmt.Sprint(marker)
+			}
+			if c.Header == "" && rapid.IntRange(0, 11).Draw(t, "shout") == 0 {
+				s.Shout, s.Number, s.Text = true, false, ""
 			}
 			s.TrimL = rapid.Bool().Draw(t, "triml")
 			s.TrimR = rapid.Bool().Draw(t, "trimr")
@@ -310,7 +347,9 @@ func (c c03Case) printSeg(s c03Seg) string {
 		b.WriteString("- ")
 	}
 	b.WriteString(s.PadL)
-	if s.Number {
+	if s.Shout {
+		b.WriteString("shout()")
+	} else if s.Number {
 		b.WriteString(s.Text)
 	} else {
 		b.WriteString(`"` + s.Text + `"`)
@@ -353,10 +392,20 @@ func (c c03Case) files() (map[string]string, string) {
 func (c c03Case) expected() string {
 	segs := c.Segs
 	var b strings.Builder
+	upper := false // a shout() has been executed: what follows reaches the destination in upper case
+	emit := func(t string) {
+		if upper {
+			t = string(c03UpperASCII([]byte(t)))
+		}
+		b.WriteString(t)
+	}
 	for i, s := range segs {
 		switch s.Kind {
 		case "action":
-			b.WriteString(s.Text)
+			if s.Shout {
+				upper = true
+			}
+			emit(s.Text)
 		case "text":
 			t := s.Text
 			if i > 0 && segs[i-1].Kind == "action" && segs[i-1].TrimR {
@@ -374,10 +423,19 @@ func (c c03Case) expected() string {
 					t = c.HeadWS[1] + t
 				}
 			}
-			b.WriteString(t)
+			emit(t)
 		}
 	}
 	return b.String()
+}
+
+func (c c03Case) shouts() bool {
+	for _, s := range c.Segs {
+		if s.Shout {
+			return true
+		}
+	}
+	return false
 }
 
 func judgeC03(c c03Case) (v core.Verdict) {
@@ -396,12 +454,12 @@ func judgeC03(c c03Case) (v core.Verdict) {
 	}
 	var o jetrun.Outcome
 	if c.Reader == "" {
-		o = jetrun.Render(files, entry, nil, nil, c.Delims.Options()...)
+		o = jetrun.Render(files, entry, c03Vars(), nil, c.Delims.Options()...)
 	} else {
 		v.Label("reader:" + c.Reader)
 		t, og := jetrun.Get(jetrun.NewStyledSet(files, c.Reader, c.Delims.Options()...), entry)
 		if o = og; !og.Failed() {
-			o = jetrun.Exec(t, nil, nil)
+			o = jetrun.Exec(t, c03Vars(), nil)
 		}
 	}
 	nAction, nComment, wsTrim, lone := 0, 0, false, false
@@ -446,6 +504,10 @@ func judgeC03(c c03Case) (v core.Verdict) {
 	// the same template into a destination that has nothing but a Write method and breaks after some bytes: what
 	// it accepted is the beginning of the output, and when the template ends in text that could not be delivered
 	// any more, Execute says so
+	if c.shouts() {
+		v.Label("go-code-wraps-the-writer-midway")
+		return
+	}
 	if n := len(c.Segs); n > 0 && c.Segs[n-1].Kind == "text" && strings.HasSuffix(want, c.Segs[n-1].Text) && c.Segs[n-1].Text != "" {
 		k := (len(want) - 1) * (1 + len(c.Junk)%7) / 8 // somewhere before the last byte
 		w := &c03Breaking{left: k}
@@ -492,7 +554,7 @@ func (w *c03Breaking) Write(b []byte) (int, error) {
 
 func TestC03(t *testing.T) {
 	core.Run(t, "C03",
-		"segments (text over whitespace/lone-delimiter/multibyte/Unicode-white-space alphabet, marker actions with independent trim markers, comments) under 22 fixed + random delimiter configurations (options in either order; comment markers that begin with the action delimiter), optional import/extends header, loader readers delivering the source whole / with data+EOF in one Read / byte by byte / in halves; templates that end in text are rendered a second time into a Write-only destination that breaks before the last byte (prefix delivered, Execute reports it); also: action delimiters that begin with the comment marker ('#{' with '#', '{{' with '{', '<%' with '<', '[[[' with '[['); non-trivial = >=2 non-text segments and a text with whitespace next to a trim marker or a lone delimiter byte; distinct by case hash",
+		"segments (text over whitespace/lone-delimiter/multibyte/Unicode-white-space alphabet, marker actions with independent trim markers, comments) under 22 fixed + random delimiter configurations (options in either order; comment markers that begin with the action delimiter), optional import/extends header, loader readers delivering the source whole / with data+EOF in one Read / byte by byte / in halves; templates that end in text are rendered a second time into a Write-only destination that breaks before the last byte (prefix delivered, Execute reports it); also: action delimiters that begin with the comment marker ('#{' with '#', '{{' with '{', '<%' with '<', '[[[' with '[['); round 10: only one of the two comment markers configured; a Go function that wraps Runtime.Writer in an upper-casing writer midway (text after it arrives in upper case, in source order); non-trivial = >=2 non-text segments and a text with whitespace next to a trim marker or a lone delimiter byte; distinct by case hash",
 		genC03, judgeC03)
 }
 
